@@ -1,5 +1,5 @@
 #!/usr/bin/env python3
-"""resolve git conflict blocks by keeping both sides (ours first, then their lines not already present)."""
+"""resolve git conflict blocks by keeping both sides (ours first, then theirs) — review the result."""
 import sys
 for p in sys.argv[1:]:
     out, ours, theirs, state = [], [], [], 0
@@ -9,7 +9,7 @@ for p in sys.argv[1:]:
         elif l.startswith("=======") and state == 1:
             state = 2
         elif l.startswith(">>>>>>> ") and state == 2:
-            out += ours + [x for x in theirs if x not in ours]
+            out += ours + theirs      # never de-duplicate: identical lines (`return s`, cfg attributes) are often both needed
             state = 0
         elif state == 1:
             ours.append(l)
